@@ -67,8 +67,11 @@ fn filter_map_keep<const N: usize, const BORROWED: bool>(keep: [bool; N]) {
     std::mem::forget(vals);
 }
 
+// NOT REGISTERED (owned_n2 with a symbolic keep pattern, owned_n3): no result in 500 s; the four constant keep
+// patterns of an owned 2-element array are registered instead (end of the file).
 #[kani::proof]
 #[kani::stub(std::mem::drop, crate::lhs_types::verif_kani::common::mem_drop__releases_nothing_observable)]
+#[kani::solver(minisat)]
 #[kani::unwind(3)]
 fn array_filter_map_to__owned_n2() {
     filter_map::<2, false>()
